@@ -34,7 +34,7 @@ func NewSpecDB() *SpecDB {
 	}
 }
 
-var directiveRe = regexp.MustCompile(`^(props|ghost|spec|lemma|func|site|extern|arith|trusted|pure|requires|ensures|canary|modifies|loop|nullable|nopanic|let|effects|axiom)\b`)
+var directiveRe = regexp.MustCompile(`^(props|ghost|spec|lemma|func|site-requires|site|extern|arith|trusted|pure|requires|ensures|canary|modifies|loop|nullable|nopanic|let|effects|axiom)\b`)
 
 type rawLine struct {
 	text string
@@ -227,6 +227,18 @@ func (db *SpecDB) LoadFile(path, pkgPath, prefix string) {
 			}
 			db.Lemmas = append(db.Lemmas, lm)
 			cur = nil
+		case "site-requires":
+			// site-requires <caller> | <callee> | <n or *> : extra call-site preconditions in the caller's scope
+			parts := strings.Split(rest, "|")
+			if len(parts) != 3 {
+				db.errf(path, rl.line, "expected: site-requires <caller> | <callee> | <n>")
+				continue
+			}
+			caller := qualifyKey(strings.TrimSpace(parts[0]), pkgPath)
+			callee := qualifyKey(strings.TrimSpace(parts[1]), pkgPath)
+			key := fmt.Sprintf("sitereq:%s:%s#%s", caller, callee, strings.TrimSpace(parts[2]))
+			cur = &Contract{Key: key, Pkg: pkgPath, File: path, Arith: "wrap", Loops: map[int]*LoopContract{}, Nullable: map[string]bool{}, NoPanic: true, Props: fileProps, Trusted: true, Site: true}
+			db.Contracts[key] = cur
 		case "site":
 			// site <caller> | <callee> | <n>   : contract of the n-th call (source order) of callee inside caller,
 			// evaluated in the caller's scope (caller parameters; result/err of the call)
